@@ -108,6 +108,12 @@ def run_case(case, ctx):
         params["k_nn"] = kk
         items = gen.batch_sequence(rng, len(items), items[0].shape[1], size=(kk // 2 + 2, 3 * kk), shift_p=0.5, dup_p=0.0, integer_p=0.0, const_p=0.0)
         ctx.count("nndvi_histories_with_batches_shorter_than_k")
+    int_first = False
+    if zoo.kind(name) == "batch" and rng.random() < 0.15:
+        # the first reference holds whole numbers and arrives with an integer dtype; everything after it is floating point
+        items[0] = np.round(np.asarray(items[0]) / (float(np.std(items[0])) or 1.0) * 3)
+        int_first = True
+        ctx.count("integer_typed_first_reference")
     k = zoo.kind(name)
     key = case.get("seed_key", case["id"])
     det = zoo.make(name, params)
@@ -145,9 +151,9 @@ def run_case(case, ctx):
         np.random.seed(rngtap.seed_for(key, i))
         try:
             if op == "set_reference":
-                det.set_reference(np.asarray(item).copy())
+                det.set_reference(np.asarray(item).astype(np.int64) if (int_first and i == 0) else np.asarray(item).copy())
             else:
-                zoo.feed(det, name, item)
+                zoo.feed(det, name, np.asarray(item).astype(np.int64) if (int_first and i == 0) else item)
         except ValueError as e:
             if name == "CUSUM" and "Standard deviation is 0" in str(e):
                 break
